@@ -135,7 +135,9 @@ Inductive case :=
    tasks that were runnable (Do status, no tomb, nothing to wait for) before the pass and still have no tomb after *)
 | CPass (before : tombs) (after_handlers : list task) (idle : list task)
 (* the set of handlers executing at one instant (recorded when a handler starts) *)
-| CExec (executing : list task).
+| CExec (executing : list task)
+(* every task with a tomb after an Ensure pass, with its cleanup flag *)
+| CTombs (tb : tombs).
 
 Definition subset_ids (a b : list task) : bool :=
   forallb (fun x => existsb (fun y => N.eqb (t_id x) (t_id y)) b) a.
@@ -148,6 +150,7 @@ Definition mismatch (c : case) : bool :=
          running set (the predicates are monotone), and what was started is not blocked by what ran before *)
       negb (forallb (fun t => blocked t (map fst before ++ after_h)) idle)
   | CExec _ => false
+  | CTombs _ => false
   end.
 
 (* ------------------------------------------------------------------------------------------ the property, stated
@@ -190,4 +193,20 @@ Definition monitor_fail (c : case) : bool :=
       spec_excl running && negb (existsb (fun b => b) observed) && negb (spec_excl (running ++ [t]))
   | CPass before after_h idle => spec_excl (handlers before) && negb (spec_excl after_h)
   | CExec executing => negb (spec_excl executing)
+  | CTombs tb => negb (spec_excl (handlers tb))
   end.
+
+(* the remaining clause of the property, `a gadget-asset update never runs alongside any other task`, read literally:
+   a cleanup goroutine (task code of another task) exists while update-gadget-assets executes. Evaluated separately so
+   that this one class can be recorded as a known finding without hiding any violation among do/undo handlers. *)
+Definition cleanup_monitor_fail (c : case) : bool :=
+  match c with
+  | CTombs tb => existsb (fun x => negb (snd x) && spec_is_gadget (fst x)) tb && existsb (fun x => snd x) tb
+  | _ => false
+  end.
+
+(* no Ensure pass of the history starts a cleanup (no ready change has an uncleaned task of a kind with a cleanup handler) *)
+Definition no_clean_cand (c : cand) : bool := match c with CClean _ => false | _ => true end.
+Definition no_clean (evs : list event) : bool :=
+  forallb (fun e => match e with EEnsure cs => forallb no_clean_cand cs | EDone _ => true end) evs.
+
